@@ -7,7 +7,7 @@ import ast
 from typing import Dict, List, Optional, Set, Tuple
 
 from ..cfg import Flow, Node, build_cfg
-from ..core import (AnalysisError, FuncInfo, Index, Result, call_name, call_recv, dotted, iter_calls, norm_stmt, src,
+from ..core import (seq, AnalysisError, FuncInfo, Index, Result, call_name, call_recv, dotted, iter_calls, norm_stmt, src,
                     walk_no_nested)
 from ..util import params, single_assignments
 
@@ -115,6 +115,18 @@ def check_c08(idx: Index, tier: str, res: Result) -> None:
                     ok = True
             if any(isinstance(x, ast.If) for x in lp.body):
                 ok = False
+        # memo.update({k: {} for k in memo}) - through named intermediates
+        from ..util import deref
+        for c in iter_calls(fi.node):
+            if call_name(c) == "update" and len(c.args) == 1 and isinstance(c.func, ast.Attribute) and dotted(deref(fi.node, c.func.value)) == memo_attr:
+                d = deref(fi.node, c.args[0])
+                if isinstance(d, ast.DictComp) and isinstance(d.value, ast.Dict) and not d.value.keys and len(d.generators) == 1 \
+                        and not d.generators[0].ifs and src(d.key) == src(d.generators[0].target):
+                    it = d.generators[0].iter
+                    while isinstance(it, ast.Call) and call_name(it) in ("list", "tuple", "keys"):
+                        it = it.func.value if call_name(it) == "keys" else it.args[0]
+                    if dotted(deref(fi.node, it)) == memo_attr:
+                        ok = True
         whole = [n for n in walk_no_nested(fi.node) if isinstance(n, ast.Assign) and dotted(n.targets[0]) == memo_attr]
         clear = [c for c in iter_calls(fi.node) if call_name(c) == "clear" and dotted(c.func.value) == memo_attr]
         if whole or clear:
@@ -162,7 +174,7 @@ def check_c08(idx: Index, tier: str, res: Result) -> None:
     bs = idx.func(BPTK, "bptk.begin_session")
     conf = [c for c in iter_calls(bs.node) if call_name(c) == "configure_settings"]
     rst = [c for c in iter_calls(bs.node) if call_name(c) == "reset_scenario_cache"]
-    ok = bool(conf) and bool(rst) and all(r.lineno > c.lineno for c in conf for r in rst) and \
+    ok = bool(conf) and bool(rst) and all(seq(r) > seq(c) for c in conf for r in rst) and \
         _same_loop(bs.node, conf[0], rst[0])
     res.check("MUSTCALL", "begin_session resets every selected scenario after configuring it", ok, bs.loc(), bs.qual,
               "configure_settings ... reset_scenario_cache", "begin_session does not reset the cache of the scenarios it configures",
@@ -176,7 +188,11 @@ def check_c08(idx: Index, tier: str, res: Result) -> None:
     # ---- (2) lockset -----------------------------------------------------------------------------------------
     nthreads = 0
     for fi in idx.all_funcs("BPTK_Py/"):
-        for lp in [n for n in walk_no_nested(fi.node) if isinstance(n, (ast.For, ast.While))]:
+        # one Thread per iteration: a for/while loop or a comprehension
+        for lp in [n for n in walk_no_nested(fi.node) if isinstance(n, (ast.For, ast.While, ast.ListComp, ast.GeneratorExp, ast.SetComp))]:
+            if any(isinstance(o, (ast.For, ast.While, ast.ListComp, ast.GeneratorExp, ast.SetComp)) and o is not lp and any(x is lp for x in ast.walk(o))
+                   for o in walk_no_nested(fi.node)):
+                continue       # counted with the outermost loop
             for c in iter_calls(lp):
                 if call_name(c) == "Thread":
                     tgt = [k.value for k in c.keywords if k.arg == "target"]
@@ -185,7 +201,7 @@ def check_c08(idx: Index, tier: str, res: Result) -> None:
                     nthreads += 1
                     tname = dotted(tgt[0]) or src(tgt[0])
                     if not tname.startswith("self."):
-                        res.note("thread target %s in %s: one thread per distinct object (%s), no shared receiver" % (tname, fi.qual, src(lp.iter) if isinstance(lp, ast.For) else ""))
+                        res.note("thread target %s in %s: one thread per distinct object (%s), no shared receiver" % (tname, fi.qual, src(lp.iter) if isinstance(lp, ast.For) else src(lp)[:60]))
                         continue
                     cls = idx.find_class(fi.cls) if fi.cls else None
                     meth = tname.split(".")[-1]
@@ -321,13 +337,13 @@ def _check_then_act(res: Result, starter: FuncInfo, target: FuncInfo, fi: FuncIn
     for n in walk_no_nested(fi.node):
         if isinstance(n, ast.Assign) and isinstance(n.targets[0], ast.Subscript):
             t = table_of(n.targets[0].value) or table_of(n.targets[0])
-            if t and t in probes and n.lineno > probes[t].lineno:
+            if t and t in probes and seq(n) > seq(probes[t]):
                 # value computed between probe and store?
                 computed = isinstance(n.value, ast.Name) or isinstance(n.value, ast.Call)
                 locked = any(isinstance(w, ast.With) and any(x is n for x in ast.walk(w)) for w in ast.walk(fi.node))
                 if not computed:
                     continue
-                per_thread = _keyed_by_thread_arg(fi, target, n)
+                per_thread = _keyed_by_thread_arg(fi, target, n) or _own_row(fi, target, n.targets[0])
                 if per_thread:
                     res.ob("LOCKSET", "%s: %s (key is the thread's own argument)" % (fi.qual, norm_stmt(n)[:50]), True, nontrivial=False)
                     continue
@@ -347,3 +363,18 @@ def _keyed_by_thread_arg(fi: FuncInfo, target: FuncInfo, store: ast.Assign) -> b
     ps = set(params(fi.node)[1:])
     sl = store.targets[0].slice
     return isinstance(sl, ast.Name) and sl.id in ps and isinstance(store.value, ast.Dict)
+
+
+def _own_row(fi: FuncInfo, target: FuncInfo, tgt: ast.AST) -> bool:
+    """T[own_param][...] = v inside the thread target: the row keyed by the thread's own argument belongs to that thread."""
+    if fi is not target:
+        return False
+    ps = set(params(fi.node)[1:])
+    first = None
+    e = tgt
+    while isinstance(e, ast.Subscript):
+        first = e.slice
+        e = e.value
+    if isinstance(e, ast.Call) and isinstance(e.func, ast.Attribute) and e.func.attr == "setdefault" and e.args:
+        first = e.args[0]
+    return isinstance(first, ast.Name) and first.id in ps and isinstance(tgt, ast.Subscript) and isinstance(tgt.value, (ast.Subscript, ast.Call))
